@@ -404,6 +404,43 @@ def run(ctx):
             unreached += 1
             ctx.violation("rand_argmax", "tie_unreachable", f"ties {sorted(ties)} reached {sorted(seen)} in 200 seeds",
                           {"component": "ties", "a": hexes(a)})
+    # the same over an axis of 2-D arrays (every slice separately), half of them with an all-NaN slice next to tied slices
+    for h in range(40 if ctx.is_quick else 400):
+        shape = (int(rng.integers(2, 5)), int(rng.integers(2, 5)))
+        a = rng.choice([0.0, 1.0, NAN], size=shape, p=[0.45, 0.35, 0.2])
+        axis = h % 2
+        is_max = bool((h // 2) % 2)
+        if h % 4 < 2:
+            if axis == 1:
+                a[int(rng.integers(shape[0]))] = NAN
+            else:
+                a[:, int(rng.integers(shape[1]))] = NAN
+        fn = sel.rand_argmax if is_max else sel.rand_argmin
+        A = a if axis == 1 else a.T
+        want = []
+        for r in A:
+            if np.all(np.isnan(r)):
+                want.append(None)
+            else:
+                best = np.nanmax(r) if is_max else np.nanmin(r)
+                want.append(set(np.flatnonzero(r == best).tolist()))
+        seen = [set() for _ in A]
+        with warnings.catch_warnings():
+            warnings.simplefilter("ignore")
+            for sd in range(300):
+                res = np.atleast_1d(fn(a, random_state=sd, axis=axis))
+                for j, v in enumerate(res):
+                    seen[j].add(int(v))
+                if all(w is None or sn >= w for w, sn in zip(want, seen)):
+                    break
+        ctx.count("tie_reachability_axis")
+        for j, (w, sn) in enumerate(zip(want, seen)):
+            if w is not None and not (w <= sn):
+                unreached += 1
+                ctx.violation("rand_arg_axis", "tie_unreachable", f"{'rand_argmax' if is_max else 'rand_argmin'}(a, axis={axis}), a={a.tolist()}: slice {j} has tied optima {sorted(w)}, reached {sorted(sn)} in 300 seeds",
+                              {"component": "ties_axis", "a": hexes(a), "shape": list(shape), "axis": axis, "is_max": is_max},
+                              what="a tied optimum of a slice is never returned, whatever the seed")
+                break
     ctx.extra["tie_patterns_with_unreached_optimum"] = unreached
     ctx.extra["exhaustive"] = False
     ctx.extra["exhaustive_subspace"] = "arrays over a 7-letter alphabet up to length %d x {max,min}" % (4 if ctx.is_quick else 5)
